@@ -52,6 +52,7 @@ def extent(e):
 
 class Check(PropertyCheck):
     id = "C12"
+    thorough_mult = 3
     lean_modules = ["Svgbob.Properties.C12"]
     assumptions = [
         "whole-pipeline model tied to the implementation end to end (bytes)",
